@@ -64,7 +64,7 @@ def _blur_lemma(name, qual, mk_args, kernel, renormalised=False):
             return
         total_img = S.sigma(0, n, lambda a: S.sigma(0, m, lambda b: img.at((a, b))))
         with_hyp(ctx, inr + [v != 0], lambda: oblige_equal(ctx, 'C19::%s.output_is_modulus_times_total_of_image_over_total_of_modulus' % name,
-                                                            out.at((i, j)), S.truediv(S.mul(total_img, mod(i, j)), v)))
+                                                            out.at((i, j)), S.truediv(S.mul(total_img, mod(i, j)), v), 'structure'))
     return ('C19::' + name, lemma)
 
 
